@@ -257,6 +257,9 @@ def gen_file(fname):
             elif isinstance(node, ast.Continue):
                 add(node, "break", "continue->break", qual, props)
             elif isinstance(node, ast.Expr) and isinstance(node.value, ast.Call):
+                callee = src.seg(node.value.func)
+                if callee.split(".")[0] in ("logger", "log", "logging") or ".logger." in callee or callee.startswith("self.logger"):
+                    continue    # logging is not behaviour any property speaks about
                 add(node, "pass", "drop-call", qual, props)
             elif isinstance(node, (ast.Assign, ast.AugAssign)) and node.lineno == node.end_lineno:
                 if isinstance(node, ast.AugAssign):
